@@ -668,3 +668,17 @@ func (e *Engine) noteCtx(in ssa.Instruction, fits bool, mask int64) {
 // NarrowKeyOf / CallString expose the context keys used by NarrowCtx and Defer.
 func (e *Engine) NarrowKeyOf(in ssa.Instruction) string { return e.narrowKey(in) }
 func (e *Engine) CallString() string                    { return e.callString() }
+
+// AllocFieldExpr is the current integer value of field idx of the struct held by the local allocation a.
+func (e *Engine) AllocFieldExpr(st *State, a *ssa.Alloc, idx int) Lin {
+	pt, ok := a.Type().Underlying().(*types.Pointer)
+	if !ok {
+		return Lin{Bad: true}
+	}
+	stt, ok := pt.Elem().Underlying().(*types.Struct)
+	if !ok || idx >= stt.NumFields() || !(isInt(stt.Field(idx).Type()) || isBool(stt.Field(idx).Type())) {
+		return Lin{Bad: true}
+	}
+	key := fmt.Sprintf("%s.f%d", e.allocObj(a), idx)
+	return st.Subst(Var(e.cellInt(key, stt.Field(idx).Type())))
+}
